@@ -1630,3 +1630,238 @@ Proof.
   destruct Ha as [(j & ->)|(k & t & -> & Hk & Hq)]; [reflexivity|].
   cbn [touches]. fold s. rewrite Hk. destruct (r_pc t); try reflexivity. rewrite Hq. reflexivity.
 Qed.
+
+(* ------------------------------------------------------------------ *)
+(* what happens to ONE routing goroutine under every interleaving      *)
+
+(* the steps of other goroutines leave goroutine k alone *)
+Lemma router_other s a k t :
+  inv s -> nth_error (routers s) k = Some t -> a <> ARouter k ->
+  nth_error (routers (c_step s a)) k = Some t.
+Proof.
+  intros I Hk Na. destruct a as [j|d|r|k'|d|d|d].
+  - cbn [c_step]. destruct (live s j); exact Hk.
+  - cbn [c_step]. destruct (nth_error (chans s) d); exact Hk.
+  - cbn [c_step routers]. apply nth_error_snoc_old. exact Hk.
+  - assert (Nk : k <> k') by congruence. rewrite step_router_eq.
+    destruct (router_step_spec s k' I); try exact Hk;
+      rewrite set_pc_routers; cbn [set_table set_chans add_ordinary routers];
+      rewrite nth_error_upd_other by exact Nk; exact Hk.
+  - exact Hk.
+  - exact Hk.
+  - cbn [c_step]. destruct (nth_error (chans s) d) as [ch0|]; [destruct (c_done ch0)|]; exact Hk.
+Qed.
+
+Lemma ordinary_step s a : inv s -> exists suf, ordinary (c_step s a) = ordinary s ++ suf.
+Proof.
+  intros I. destruct a as [j|d|r|k|d|d|d]; try (exists []; rewrite app_nil_r; reflexivity).
+  - exists []. rewrite app_nil_r. cbn [c_step]. destruct (live s j); reflexivity.
+  - exists []. rewrite app_nil_r. cbn [c_step]. destruct (nth_error (chans s) d); reflexivity.
+  - rewrite step_router_eq. destruct (router_step_spec s k I) as [| | | | | | |t Hk Hpc];
+      try (exists []; rewrite app_nil_r; reflexivity).
+    exists [r_iq t]. reflexivity.
+  - exists []. rewrite app_nil_r. cbn [c_step]. destruct (nth_error (chans s) d) as [ch0|]; [destruct (c_done ch0)|]; reflexivity.
+Qed.
+
+Fixpoint steps_of (k : nat) (l : list act) : nat :=
+  match l with
+  | [] => 0
+  | ARouter k' :: l' => (if Nat.eqb k' k then 1 else 0) + steps_of k l'
+  | _ :: l' => steps_of k l'
+  end.
+
+(* goroutine k is finished as soon as it has been scheduled rank-many (at most three) times,
+   whatever the other goroutines do in between *)
+Lemma router_finishes l' : forall s k t,
+  inv s -> nth_error (routers s) k = Some t -> rank (r_pc t) <= steps_of k l' ->
+  exists t', nth_error (routers (c_run s l')) k = Some t' /\ r_iq t' = r_iq t /\ r_pc t' = RDone.
+Proof.
+  induction l' as [|a l' IH]; intros s k t I Hk Hr.
+  - exists t. split; [exact Hk|]. split; [reflexivity|]. cbn in Hr. destruct (r_pc t); cbn in Hr; try lia. reflexivity.
+  - rewrite c_run_cons.
+    assert (D : a = ARouter k \/ (a <> ARouter k /\ steps_of k (a :: l') = steps_of k l')).
+    { destruct a as [j|d|r|k'|d|d|d]; try (right; split; [discriminate|reflexivity]).
+      destruct (Nat.eq_dec k' k) as [->|Ne]; [left; reflexivity|].
+      right. split; [congruence|]. cbn [steps_of]. apply Nat.eqb_neq in Ne. rewrite Ne. reflexivity. }
+    destruct D as [->|[Na Es]].
+    + rewrite step_router_eq. destruct (router_progress s k t I Hk) as (t1 & H1 & E1 & R1).
+      cbn [steps_of] in Hr. rewrite Nat.eqb_refl in Hr.
+      destruct (IH (router_step s k) k t1 (inv_router s k I) H1) as (t' & G1 & G2 & G3); [lia|].
+      exists t'. split; [exact G1|]. split; [congruence|exact G3].
+    + rewrite Es in Hr. apply (IH (c_step s a) k t (inv_step _ _ I) (router_other s a k t I Hk Na) Hr).
+Qed.
+
+Lemma cnt_flat_map_ge {A} (g : A -> list resp) l n a x :
+  nth_error l n = Some a -> cnt x (g a) <= cnt x (flat_map g l).
+Proof.
+  intros H. apply nth_error_split in H as (l1 & l2 & -> & _).
+  rewrite flat_map_app. cbn [flat_map]. rewrite !cnt_app. lia.
+Qed.
+
+Lemma cnt_single x : cnt x [x] = 1.
+Proof. unfold cnt. cbn. destruct (resp_dec x x); [reflexivity|congruence]. Qed.
+
+(* the lookup of goroutine k HIT a live entry: it holds channel c and will send r on it *)
+Definition hit_track (s : cst) (k c : nat) (r : resp) : Prop :=
+  exists t, nth_error (routers s) k = Some t /\ r_iq t = r /\
+    (r_pc t = RSend c \/ r_pc t = RClose c \/
+     (r_pc t = RDone /\ exists ch, nth_error (chans s) c = Some ch /\ c_closed ch = true /\
+                                   contents ch = [r] /\ c_owner ch = rid r)).
+
+Lemma hit_track_step s a k c r : inv s -> hit_track s k c r -> hit_track (c_step s a) k c r.
+Proof.
+  intros I (t & Hk & Er & D). pose proof I as (P & T & N & U & O & H & C).
+  assert (Dec : a = ARouter k \/ a <> ARouter k).
+  { destruct a as [j|d|x|k'|d|d|d]; try (right; discriminate).
+    destruct (Nat.eq_dec k' k) as [->|Ne]; [left; reflexivity|right; congruence]. }
+  destruct Dec as [->|Na].
+  - rewrite step_router_eq. destruct D as [Hpc|[Hpc|[Hpc Hch]]].
+    + assert (Hh : held_by t = Some c) by (unfold held_by; rewrite Hpc; reflexivity).
+      destruct (H _ _ _ Hk Hh) as (ch & E1 & Eo & Ec & Eb). rewrite Hpc in Eb. destruct Eb as [Eb Eg].
+      rewrite (router_step_send s k t c ch Hk Hpc E1 Ec Eb).
+      exists (with_pc (RClose c) t). split; [rewrite set_pc_routers; apply nth_error_upd_same; exact Hk|].
+      split; [exact Er|]. right. left. reflexivity.
+    + assert (Hh : held_by t = Some c) by (unfold held_by; rewrite Hpc; reflexivity).
+      destruct (H _ _ _ Hk Hh) as (ch & E1 & Eo & Ec & Eb). rewrite Hpc in Eb.
+      rewrite (router_step_close s k t c ch Hk Hpc E1 Ec).
+      exists (with_pc RDone t). split; [rewrite set_pc_routers; apply nth_error_upd_same; exact Hk|].
+      split; [exact Er|]. right. right. split; [reflexivity|].
+      exists (close_ch ch). split; [cbn [set_pc set_routers set_chans chans]; apply nth_error_upd_same; exact E1|].
+      split; [reflexivity|]. split; [|cbn [close_ch c_owner]; congruence].
+      unfold contents, close_ch; cbn [c_got c_buf]. rewrite <- Er.
+      destruct Eb as [[Eb Eg]|[Eb Eg]]; rewrite Eb, Eg; reflexivity.
+    + rewrite (router_step_done s k t Hk Hpc). exists t. split; [exact Hk|]. split; [exact Er|]. auto.
+  - exists t. split; [apply router_other; assumption|]. split; [exact Er|].
+    destruct D as [Hpc|[Hpc|[Hpc (ch & E1 & Ecl & Ect & Eo)]]]; auto.
+    right. right. split; [exact Hpc|].
+    destruct (closed_stable_step s a c ch I E1 Ecl) as (ch' & G1 & G2 & G3 & G4).
+    exists ch'. split; [exact G1|]. split; [exact G2|]. split; congruence.
+Qed.
+
+(* ... or it hit an entry whose context had ended: it closes c and routes r ordinarily *)
+Definition miss_track (s : cst) (k c : nat) (r : resp) : Prop :=
+  exists t, nth_error (routers s) k = Some t /\ r_iq t = r /\
+    (r_pc t = RCloseOrd c \/
+     ((r_pc t = ROrd \/ (r_pc t = RDone /\ In r (ordinary s))) /\
+      exists ch, nth_error (chans s) c = Some ch /\ c_closed ch = true /\ contents ch = [])).
+
+Lemma miss_track_step s a k c r : inv s -> miss_track s k c r -> miss_track (c_step s a) k c r.
+Proof.
+  intros I (t & Hk & Er & D). pose proof I as (P & T & N & U & O & H & C).
+  assert (Dec : a = ARouter k \/ a <> ARouter k).
+  { destruct a as [j|d|x|k'|d|d|d]; try (right; discriminate).
+    destruct (Nat.eq_dec k' k) as [->|Ne]; [left; reflexivity|right; congruence]. }
+  destruct Dec as [->|Na].
+  - rewrite step_router_eq. destruct D as [Hpc|[[Hpc|[Hpc Hin]] Hch]].
+    + assert (Hh : held_by t = Some c) by (unfold held_by; rewrite Hpc; reflexivity).
+      destruct (H _ _ _ Hk Hh) as (ch & E1 & Eo & Ec & Eb). rewrite Hpc in Eb. destruct Eb as [Eb Eg].
+      rewrite (router_step_closeord s k t c ch Hk Hpc E1 Ec).
+      exists (with_pc ROrd t). split; [rewrite set_pc_routers; apply nth_error_upd_same; exact Hk|].
+      split; [exact Er|]. right. split; [left; reflexivity|].
+      exists (close_ch ch). split; [cbn [set_pc set_routers set_chans chans]; apply nth_error_upd_same; exact E1|].
+      split; [reflexivity|]. unfold contents, close_ch; cbn [c_got c_buf]. rewrite Eb, Eg. reflexivity.
+    + rewrite (router_step_ord s k t Hk Hpc).
+      exists (with_pc RDone t). split; [rewrite set_pc_routers; apply nth_error_upd_same; exact Hk|].
+      split; [exact Er|]. right. split; [|exact Hch]. right. split; [reflexivity|].
+      cbn [set_pc set_routers add_ordinary ordinary]. apply in_or_app. right. left. exact Er.
+    + rewrite (router_step_done s k t Hk Hpc). exists t. split; [exact Hk|]. split; [exact Er|]. right. auto.
+  - exists t. split; [apply router_other; assumption|]. split; [exact Er|].
+    destruct D as [Hpc|[Hp (ch & E1 & Ecl & Ect)]]; [left; exact Hpc|]. right. split.
+    + destruct Hp as [Hpc|[Hpc Hin]]; [left; exact Hpc|]. right. split; [exact Hpc|].
+      destruct (ordinary_step s a I) as (suf & ->). apply in_or_app. left. exact Hin.
+    + destruct (closed_stable_step s a c ch I E1 Ecl) as (ch' & G1 & G2 & G3 & _).
+      exists ch'. split; [exact G1|]. split; [exact G2|congruence].
+Qed.
+
+Lemma track_run (Tr : cst -> Prop) :
+  (forall s a, inv s -> Tr s -> Tr (c_step s a)) ->
+  forall l s, inv s -> bal s -> Tr s -> inv (c_run s l) /\ bal (c_run s l) /\ Tr (c_run s l).
+Proof.
+  intros St. induction l as [|a l IH]; intros s I B X; [auto|]. rewrite c_run_cons.
+  apply IH; [apply inv_step; exact I|apply bal_step; assumption|apply St; assumption].
+Qed.
+
+Lemma reach_hit_delivers l k t c l' :
+  let s := c_run c_init l in
+  nth_error (routers s) k = Some t -> r_pc t = RSend c ->
+  let s' := c_run s l' in
+  exists t', nth_error (routers s') k = Some t' /\ r_iq t' = r_iq t /\
+    (r_pc t' = RSend c \/ r_pc t' = RClose c \/ r_pc t' = RDone) /\
+    (r_pc t' = RDone ->
+       exists ch', nth_error (chans s') c = Some ch' /\ c_closed ch' = true /\
+                   contents ch' = [r_iq t] /\ c_owner ch' = rid (r_iq t)) /\
+    (cnt (r_iq t) (arrived s') = 1 -> cnt (r_iq t) (ordinary s') = 0).
+Proof.
+  intros s Hk Hpc s'.
+  destruct (inv_bal_run l c_init inv_init bal_init) as (I & B). fold s in I, B.
+  assert (X : hit_track s k c (r_iq t)) by (exists t; auto).
+  destruct (track_run (fun x => hit_track x k c (r_iq t)) (fun x a => hit_track_step x a k c (r_iq t)) l' s I B X)
+    as (I' & B' & (t' & Hk' & Er & D)). fold s' in I', B', Hk', D.
+  exists t'. split; [exact Hk'|]. split; [exact Er|]. split; [tauto|]. split.
+  - intros Hd. destruct D as [E|[E|[_ Hch]]]; [congruence|congruence|exact Hch].
+  - intros Hu. pose proof (B' (r_iq t)) as Bx. rewrite Hu in Bx.
+    assert (G : 1 <= cnt (r_iq t) (delivered s') + cnt (r_iq t) (in_flight s')); [|lia].
+    destruct D as [E|[E|[_ (ch & E1 & _ & Ect & _)]]].
+    + pose proof (cnt_flat_map_ge flying (routers s') k t' (r_iq t) Hk') as F.
+      unfold flying in F at 1. rewrite E, Er, cnt_single in F. unfold in_flight. lia.
+    + assert (Hh : held_by t' = Some c) by (unfold held_by; rewrite E; reflexivity).
+      destruct I' as (_ & _ & _ & _ & _ & H' & _).
+      destruct (H' _ _ _ Hk' Hh) as (ch & E1 & _ & _ & Eb). rewrite E, Er in Eb.
+      pose proof (cnt_flat_map_ge contents (chans s') c ch (r_iq t) E1) as F.
+      assert (Ect : contents ch = [r_iq t]).
+      { unfold contents. destruct Eb as [[Eb Eg]|[Eb Eg]]; rewrite Eb, Eg; reflexivity. }
+      rewrite Ect, cnt_single in F. unfold delivered. lia.
+    + pose proof (cnt_flat_map_ge contents (chans s') c ch (r_iq t) E1) as F.
+      rewrite Ect, cnt_single in F. unfold delivered. lia.
+Qed.
+
+Lemma reach_cancelled_hit l k t c l' :
+  let s := c_run c_init l in
+  nth_error (routers s) k = Some t -> r_pc t = RCloseOrd c ->
+  let s' := c_run s l' in
+  exists t', nth_error (routers s') k = Some t' /\ r_iq t' = r_iq t /\
+    (r_pc t' = RCloseOrd c \/ r_pc t' = ROrd \/ r_pc t' = RDone) /\
+    (r_pc t' = ROrd \/ r_pc t' = RDone ->
+       exists ch', nth_error (chans s') c = Some ch' /\ c_closed ch' = true /\ contents ch' = []) /\
+    (r_pc t' = RDone -> In (r_iq t) (ordinary s') /\
+       (cnt (r_iq t) (arrived s') = 1 -> cnt (r_iq t) (ordinary s') = 1)).
+Proof.
+  intros s Hk Hpc s'.
+  destruct (inv_bal_run l c_init inv_init bal_init) as (I & B). fold s in I, B.
+  assert (X : miss_track s k c (r_iq t)) by (exists t; auto).
+  destruct (track_run (fun x => miss_track x k c (r_iq t)) (fun x a => miss_track_step x a k c (r_iq t)) l' s I B X)
+    as (I' & B' & (t' & Hk' & Er & D)). fold s' in I', B', Hk', D.
+  exists t'. split; [exact Hk'|]. split; [exact Er|]. split; [|split].
+  - destruct D as [E|[[E|[E _]] _]]; auto.
+  - intros Hd. destruct D as [E|[_ Hch]]; [destruct Hd; congruence|exact Hch].
+  - intros Hd. destruct D as [E|[[E|[_ Hin]] _]]; [congruence|congruence|]. split; [exact Hin|].
+    intros Hu. pose proof (B' (r_iq t)) as Bx. rewrite Hu in Bx.
+    assert (G : 1 <= cnt (r_iq t) (ordinary s')); [|lia].
+    unfold cnt. apply (count_occ_In resp_dec) in Hin. lia.
+Qed.
+
+(* the lookup step itself: with a live entry the goroutine now holds its channel, about to send *)
+Lemma reach_hit_step l k t c ch :
+  let s := c_run c_init l in
+  nth_error (routers s) k = Some t -> r_pc t = RStart -> rreq (r_iq t) = false ->
+  lookup (rid (r_iq t)) (table s) = Some c -> nth_error (chans s) c = Some ch ->
+  let s' := c_step s (ARouter k) in
+  exists t', nth_error (routers s') k = Some t' /\ r_iq t' = r_iq t /\
+    r_pc t' = (if c_done ch then RCloseOrd c else RSend c) /\
+    lookup (rid (r_iq t)) (table s') = None /\ chans s' = chans s /\ ordinary s' = ordinary s.
+Proof.
+  intros s Hk Hpc Hq Hl Hc s'. unfold s'. rewrite step_router_eq.
+  rewrite (router_step_start_hit s k t c ch Hk Hpc Hq Hl Hc).
+  exists (with_pc (if c_done ch then RCloseOrd c else RSend c) t).
+  split; [rewrite set_pc_routers; apply nth_error_upd_same; exact Hk|].
+  split; [reflexivity|]. split; [reflexivity|]. split; [apply lookup_remove_id_same|]. split; reflexivity.
+Qed.
+
+Lemma reach_finishes l k t l' :
+  let s := c_run c_init l in
+  nth_error (routers s) k = Some t -> rank (r_pc t) <= steps_of k l' ->
+  exists t', nth_error (routers (c_run s l')) k = Some t' /\ r_iq t' = r_iq t /\ r_pc t' = RDone.
+Proof. cbn zeta. intros Hk Hr. apply (router_finishes l' _ k t); [apply inv_reachable|exact Hk|exact Hr]. Qed.
+
+Lemma rank_le_3 pc : rank pc <= 3.
+Proof. destruct pc; cbn; lia. Qed.
